@@ -1,5 +1,7 @@
 import GrinVerif.Lemmas.ChainBasic
 import GrinVerif.Lemmas.ChainApply
+import GrinVerif.Lemmas.ChainExampleFacts
+import GrinVerif.Lemmas.ChainImplRefine
 /-! # C13 — coinbase maturity, lock heights and relative locks hold on every fork -/
 namespace GV.Props.C13
 open GV GV.Chain
@@ -46,9 +48,97 @@ theorem nrd_index_after (s : UState) (b : Blk) :
       | .nrd _ _ ex => some (ex, b.h)
       | _ => none) ++ s.nrd := rfl
 
+/-- **On every fork, at all times**: after any delivery history from a fresh node (forks, reorgs,
+orphans re-processed later, duplicates), every stored block other than the genesis satisfies all
+three rules against the replayed state `sPar` of *its own* parent — the fork it extends:
+coinbase maturity for every coinbase output it spends, height locks, and NRD relative heights.
+(The decision is a function of the block's own path — `C03.validity_path_determined` — so it is the
+same whenever the block is re-applied during a reorganisation; the incremental txhashset that the
+node actually rewinds and re-applies is shown to carry that state in `C02.fork_switch`.) -/
+theorem stored_blocks_respect_locks (p : Params) (n : Node) (es : List Event) (hf : Fresh n)
+    (hreg : Registered n es) (b : Blk) (hb : n.blk b.id = some b) (h0 : b.id ≠ 0)
+    (hs : b.id ∈ (run p n es).stored) :
+    ∃ par sPar, b.parent = some par ∧ n.stateAt p par = .ok sPar ∧
+      (∀ i c, i ∈ b.ins → sPar.find i = some (i, c, true) → c + p.maturity ≤ b.h) ∧
+      (∀ f l, Ker.hl f l ∈ b.kers → l ≤ b.h) ∧
+      (∀ f rel ex hPrev, Ker.nrd f rel ex ∈ b.kers →
+        sPar.nrd.find? (·.1 == ex) = some (ex, hPrev) → hPrev + rel ≤ b.h) := by
+  have hi := run_preserved (preserved_inv p) n es hreg (hf.inv p)
+  have hdf := run_defs p n es
+  have hv : VOP p n b.id := (VOP_congr hdf.2 hdf.1 p b.id).mp (hi.2.valid b.id hs)
+  obtain ⟨par, s', hpar, _, _, hc⟩ := hv.inv hb h0
+  obtain ⟨sPar, hst, hvb, hab⟩ := checkBlock_ok p n b par s' hc
+  exact ⟨par, sPar, hpar, hst,
+    fun i c hi' hc' => maturity p sPar s' b hab i c hi' hc',
+    lock_height p n.outs b _ hvb,
+    fun f rel ex hPrev hk hfnd => nrd_relative p sPar s' b hab f rel ex hk hPrev hfnd⟩
+
+open TxHS in
+/-- The incremental txhashset (`Model/ChainImpl.lean`) records the right creation heights: along
+any path `g :: bs` accepted by `replay`, whatever `get_unspent` returns for a commitment carries the
+height at which that unspent instance was created in the replayed state — for a re-created
+commitment the height of the re-creation. (The node's own maturity check compares MMR positions,
+not these heights; the heights are what `get_unspent` hands to callers.) -/
+theorem impl_heights_refine_replay (p : Params) (g : Blk) (bs : List Blk) (s : UState) (S : TxHS)
+    (hgi : g.ins = []) (hgh : g.h = 0)
+    (hct : ∀ b ∈ bs, cutThroughViolation b = false)
+    (hr : replay p (genesisState g) bs = .ok s) (hS : applyBlocks {} (g :: bs) = .ok S) :
+    ∀ c cp, S.getUnspent c = some cp → ∃ cb, (c, cp.height, cb) ∈ s.utxo := by
+  have hctg : cutThroughViolation g = false := by
+    apply (cutThrough_false_iff g).mpr; intro c hc; rw [hgi] at hc; cases hc
+  simp only [applyBlocks] at hS
+  cases h0 : applyBlockImpl {} g with
+  | error e => simp only [h0] at hS; cases hS
+  | ok S0 =>
+    simp only [h0] at hS
+    obtain ⟨sp, A⟩ := applyBlockImpl_ok RInv.empty hctg h0
+    have ha0 : AbsH S0 (genesisState g) := by
+      have := absH_step (s := {}) A (fun c cp h => by cases h)
+      have e : (effects {} g).utxo = (genesisState g).utxo := by
+        simp [effects, genesisState, hgh]
+      intro c cp hg
+      obtain ⟨cb, hm⟩ := this c cp hg
+      exact ⟨cb, e ▸ hm⟩
+    have hah := impl_replay_heights p bs A.rinv ha0 hct hr hS
+    intro c cp hu
+    apply hah c cp
+    unfold TxHS.getUnspent at hu
+    cases hgp : S.getOutputPos c with
+    | none => rw [hgp] at hu; cases hu
+    | some cp' =>
+      rw [hgp] at hu
+      simp only at hu
+      cases hd : S.getData cp'.pos with
+      | none => rw [hd] at hu; cases hu
+      | some c' =>
+        rw [hd] at hu
+        simp only at hu
+        split at hu
+        · injection hu with hu; rw [hu]
+        · cases hu
+
 -- non-vacuity: spending a coinbase created at height 2 in a block at height 5 with maturity 3
 example : immature {} { utxo := [(7, 2, true)] }
     { id := 9, parent := some 8, h := 5, work := 2, ver := 2, ts := 1, ins := [7], outs := [], kers := [], tags := [] } = false := by
   simp [immature, UState.find, GV.Gen.AUTOMATED_TESTING_COINBASE_MATURITY]
+
+-- `stored_blocks_respect_locks`: hypotheses hold on the example tree; block 4 (height 3) spends
+-- the plain output 104, block 3 (height 2) spends the plain genesis output 100
+example : ∃ par sPar, Ex.B4.parent = some par ∧ Ex.N.stateAt Ex.P par = .ok sPar ∧
+    (∀ i c, i ∈ Ex.B4.ins → sPar.find i = some (i, c, true) → c + Ex.P.maturity ≤ Ex.B4.h) ∧
+    (∀ f l, Ker.hl f l ∈ Ex.B4.kers → l ≤ Ex.B4.h) ∧
+    (∀ f rel ex hPrev, Ker.nrd f rel ex ∈ Ex.B4.kers →
+      sPar.nrd.find? (·.1 == ex) = some (ex, hPrev) → hPrev + rel ≤ Ex.B4.h) :=
+  stored_blocks_respect_locks Ex.P Ex.N [.block Ex.B1, .block Ex.B3, .block Ex.B4] Ex.ex_fresh
+    (by
+      intro e he
+      simp only [List.mem_cons, List.not_mem_nil, or_false] at he
+      rcases he with rfl | rfl | rfl <;> rfl)
+    Ex.B4 rfl (by decide) (by decide)
+
+-- `impl_heights_refine_replay` on the example path 0,1,3,4: commitment 100, spent by block 3 and
+-- re-created by block 4, is reported with the height of its re-creation
+example : ∃ S, applyBlocks {} [Ex.G, Ex.B1, Ex.B3, Ex.B4] = .ok S ∧ S.getUnspent 100 = some ⟨5, 3⟩ :=
+  ⟨_, rfl, by decide⟩
 
 end GV.Props.C13
